@@ -13,6 +13,7 @@ import (
 	"github.com/codelaboratoryltd/bng/pkg/allocator"
 	"github.com/codelaboratoryltd/bng/pkg/dhcpv6"
 	"go.uber.org/zap"
+	"golang.org/x/sys/unix"
 )
 
 // V6Config describes one DHCPv6 server.
@@ -151,24 +152,49 @@ func (d *V6) Send(m *dhcpv6.Message) []*dhcpv6.Message {
 	return d.drain()
 }
 
+// marker is a datagram the driver itself sends through the server socket after the
+// handler returned: everything the handler wrote is queued before it, so reading up to
+// the marker collects exactly the handler's responses even if the kernel defers
+// loopback delivery to ksoftirqd under load (a missed response would look like silence).
+var marker = []byte("\xffverif-c02-marker")
+
 func (d *V6) drain() []*dhcpv6.Message {
 	var out []*dhcpv6.Message
 	rc, err := d.rcv.SyscallConn()
 	if err != nil {
 		panic(err)
 	}
+	if _, err := d.srvConn.WriteToUDP(marker, &net.UDPAddr{IP: d.peer.IP, Port: dhcpv6.DHCPv6ClientPort}); err != nil {
+		panic(fmt.Sprintf("dhcpdrv: cannot send loopback marker: %v", err))
+	}
 	buf := make([]byte, 4096)
-	for {
+	sawMarker := false
+	for waits := 0; ; {
 		n := -1
+		var fdv int
 		rc.Read(func(fd uintptr) bool {
-			k, _, e := syscall.Recvfrom(int(fd), buf, syscall.MSG_DONTWAIT)
+			fdv = int(fd)
+			k, _, e := syscall.Recvfrom(fdv, buf, syscall.MSG_DONTWAIT)
 			if e == nil {
 				n = k
 			}
-			return true // never wait
+			return true // never park the goroutine (not durably blocking inside a bubble)
 		})
 		if n < 0 {
-			return out
+			if sawMarker {
+				return out
+			}
+			// not delivered yet: wait in real time on the descriptor (blocks this OS thread only)
+			if waits++; waits > 50 {
+				panic("dhcpdrv: HARNESS failure: loopback marker datagram not received within 5 s")
+			}
+			pfd := []unix.PollFd{{Fd: int32(fdv), Events: unix.POLLIN}}
+			unix.Poll(pfd, 100)
+			continue
+		}
+		if string(buf[:n]) == string(marker) {
+			sawMarker = true // one more non-blocking pass catches a response reordered behind the marker
+			continue
 		}
 		r, err := dhcpv6.ParseMessage(buf[:n])
 		if err != nil {
